@@ -113,6 +113,10 @@ def price_str(x: float, places=12) -> str:
 
 
 # ================================================================================================== world
+def R_overdraft(rw):
+    return rw.random() < 0.12
+
+
 def gen_world(rw, rf, tier):
     """-> (world, info).  info carries what the program generator needs (per-market plans, bars, open/closed bars)."""
     quote = rw.choice(["USD"] * 5 + ["USDC"] * 3 + ["WETH"] * 2)
@@ -278,6 +282,10 @@ def gen_world(rw, rf, tier):
         "start": str(start), "n": n, "interval": "1min", "tokens": tokens, "assets": assets, "quote": quote,
         "prices": prices, "markets": markets,
     }
+    if R_overdraft(rw):
+        # an account that may be overdrawn (Actuator(allow_negative_balance=True)): a negative wallet balance is a holding too
+        world["allow_negative_balance"] = True
+        faults.append({"kind": "overdraft_allowed"})
     times = W.bar_times(world) if has_drb else [start + pd.Timedelta(minutes=i) for i in range(n)]
     info = {"plans": plans, "quote": quote, "times": times, "usd": usd, "faults": faults, "start": start, "only_drb": only_drb}
     return world, info
@@ -360,7 +368,7 @@ def gen_program(rp, rf, world, info):
         b, ph = slot()
         if len(toks) >= 2 and rp.random() < 0.7:
             f, t = rp.sample(toks, 2)
-            emit(b, ph, "acct.swap", None, {"from": f, "to": t, "amount": {"f": f"wallet:{f}", "x": rp.choice(["0.05", "0.3", "1", "1.5"])}})
+            emit(b, ph, "acct.swap", None, {"from": f, "to": t, "amount": {"f": f"wallet:{f}", "x": rp.choice(["0.05", "0.3", "1", "1.5", "2.5"] if world.get("allow_negative_balance") else ["0.05", "0.3", "1", "1.5"])}})
         else:
             f = rp.choice(toks)
             emit(b, ph, "acct.sub", None, {"token": f, "amount": {"f": f"wallet:{f}", "x": rp.choice(["0.1", "0.5"])}})
